@@ -100,6 +100,17 @@ def run(R):
         k_, s_, pos_ = q.atom_test(nd.ast)
         return not (k_ == "call" and s_ == "is_asyncio_mode" and e.label == ("T" if pos_ else "F"))
     pk = cfg.find_path([cfg.entry], [cfg.exit], N, cut_nodes=knodes, keep_edge=not_asyncio)
+    # ... and looks the key up in the table (whatever the key is: (), 0 and '' are keys like any other)
+    lookups = [n for n in cfg.nodes if n.kind in ("stmt", "test") and any(
+        (isinstance(x, ast.Subscript) and isinstance(x.ctx, ast.Load) and q.src(x.value) == "self.tasks") or
+        (isinstance(x, ast.Call) and q.call_name(x) in ("self.tasks.get", "self.tasks.__getitem__")) or
+        (isinstance(x, ast.Compare) and any(isinstance(o, (ast.In, ast.NotIn)) for o in x.ops) and any(q.src(cm) == "self.tasks" for cm in x.comparators))
+        for e_ in kit.node_exprs(n) for x in ast.walk(e_))]
+    pl = cfg.find_path([cfg.entry], [cfg.exit], N, cut_nodes=lookups, keep_edge=not_asyncio)
+    R.check(pl is None and bool(lookups), "C12.KEY", asy.qualname + ":always-looked-up", site,
+            "outside asyncio mode every call looks its key up in the table of tasks in flight",
+            "asynq() can return without looking the key up in self.tasks (e.g. for a key that is falsy: the default key of a function without parameters is "
+            "(), a keygetter may return 0 or ''): such calls never share the task in flight, the body runs once per call", cfg.fmt_path(pl) if pl else None)
     R.check(pk is None, "C12.KEY", asy.qualname + ":always-keyed", site,
             "outside asyncio mode every call computes its key (and so goes through the table of tasks in flight)",
             "asynq() can return without computing the key: such a call (e.g. one made while no task is active) gets a task of its own and registers "
